@@ -4,7 +4,7 @@ import gen_lg as gl
 
 CLAIM = ("Proved in Coq for the model's file writer: in every history covered by the stream theorems (Numbers with or without "
          'cleanup, NumbersDirect, Timestamps, TimestampsDirect) every operation returns normally - no panic, no error (C10_numbers_no_panic, '
-         'C10_numbersdirect_no_panic, C10_timestamps_no_panic, C10_timestampsdirect_no_panic, C10_numbers_cleanup_no_panic). Proved in Coq for the model, where '
+         'C10_numbersdirect_no_panic, C10_timestamps_no_panic, C10_timestampsdirect_no_panic, C10_numbers_cleanup_no_panic, C10_numbersdirect_cleanup_no_panic). Proved in Coq for the model, where '
          'every Rust operation that can panic (string slicing at byte offsets, unwrap, parse) is an explicit Panic/None outcome: '
          'log() and enabled() never panic for any target, specification, writer set and record (C10_dispatch_total); parse is a '
          "total function (C17); the directory listing cannot panic for any set of file names (C10_listing_total). The model's "
@@ -15,7 +15,7 @@ CLAIM = ("Proved in Coq for the model's file writer: in every history covered by
          "pre-populated with names that share a prefix with the logger's files. The oracle applied to the implementation: no "
          'operation panics, and the writer keeps working afterwards. Partial: panics inside dependencies and real-thread hangs '
          'are outside the model (watchdog observation only). ')
-THEOREMS = ["C10_numbers_no_panic", "C10_numbersdirect_no_panic", "C10_timestamps_no_panic", "C10_timestampsdirect_no_panic", "C10_numbers_cleanup_no_panic", "C10_dispatch_total", "C10_listing_total"]
+THEOREMS = ["C10_numbers_no_panic", "C10_numbersdirect_no_panic", "C10_timestamps_no_panic", "C10_timestampsdirect_no_panic", "C10_numbers_cleanup_no_panic", "C10_numbersdirect_cleanup_no_panic", "C10_dispatch_total", "C10_listing_total"]
 TRUSTED = ["modelled, not verified: which std/chrono calls can panic (slicing, unwrap) - tied by the correspondence; chrono formatting with "
            "an invalid custom strftime item and serde/regex internals are outside the model"]
 ASSUMPTIONS = ["custom time-stamp formats are built from literals and %Y %m %d %H %M %S", "recursive logging is exercised by the C20 check (child processes)"]
